@@ -60,11 +60,12 @@ def has_negated_class(s):
     return False
 
 
-def run_child(hashseed, seed, sources, repeat=1):
+def run_children(hashseed, jobs):
+    """one fresh interpreter with the given PYTHONHASHSEED runs all jobs"""
     env = dict(os.environ)
     env["PYTHONHASHSEED"] = str(hashseed)
-    p = subprocess.run([sys.executable, CHILD], input=json.dumps({"seed": seed, "schemas": sources, "repeat": repeat}),
-                       capture_output=True, text=True, env=env, timeout=120)
+    p = subprocess.run([sys.executable, CHILD], input=json.dumps(jobs), capture_output=True, text=True, env=env,
+                       timeout=900)
     if p.returncode != 0:
         raise common.CheckBroken("C17 child failed: " + p.stderr[-2000:])
     return json.loads(p.stdout)
@@ -98,16 +99,18 @@ class Recorder(tape.Tape):
 
 def run(ctx):
     r = ctx.rng
-    n_seq = ctx.scale(14, 120)
+    n_seq = ctx.scale(150, 1500)
     hashseeds = [0, 1, 7, 12345] if not ctx.thorough() else [0, 1, 2, 3, 7, 11, 42, 99, 1234, 12345, 65536, 99999, 7777777,
                                                              31337, 271828, 4294967295]
     depth = ctx.scale(3, 5)
-    dist = {"sequences": 0, "schemas": 0, "env_free": 0, "negated_class": 0, "process_runs": 0, "differences": 0}
+    dist = {"sequences": 0, "schemas": 0, "negated_class": 0, "process_runs": 0, "differences": 0, "relaxed_dicts": 0}
     samples = []
     terms, infos = [], []
     neg_pool = ["schema.str.regex('[^a]')", "schema.str.regex('x[^0-9a-f]{3}')", "schema.list(schema.str.regex('[^\\\\w]+')).len(2)"]
+    fixed_seeds = [0, 0.0, "", b"", 1, -1, 2 ** 70, "seed", 3.5, b"\x00", True, False]
+    jobs, meta = [], []
     for q in range(n_seq):
-        seqlen = r.randint(1, 6)
+        seqlen = r.randint(1, 5)
         sources, schemas = [], []
         while len(sources) < seqlen:
             src, s = gen.gen_schema(r, r.randint(0, depth))
@@ -115,43 +118,59 @@ def run(ctx):
                 continue
             sources.append(src)
             schemas.append(s)
-        if q % 5 == 4:
+        if q % 6 == 5:
             src = r.choice(neg_pool)
             sources.append(src)
             schemas.append(gen.build(src))
-        negated = any(has_negated_class(s) for s in schemas)
+        if q % 4 == 1:
+            # a relaxed dict with several keys whose members draw
+            ks = r.sample(["a", "b", "c", "id", "zz", "é", "k1", "k2"], r.randint(2, 5))
+            src = "schema.dict({" + ", ".join(f"{k!r}: {r.choice(['schema.int', 'schema.str.len(3)', 'schema.bool', 'schema.float'])}"
+                                              for k in ks) + ", ...: ...})"
+            sources.append(src)
+            schemas.append(gen.build(src))
+            dist["relaxed_dicts"] += 1
+        seed = fixed_seeds[q] if q < len(fixed_seeds) else r.choice([0, 1, 42, r.randrange(1 << 32), "seed", 3.5])
+        jobs.append({"seed": repr(seed), "schemas": sources, "repeat": 2})
+        meta.append((seed, sources, schemas, any(has_negated_class(s) for s in schemas)))
         dist["sequences"] += 1
         dist["schemas"] += len(schemas)
+    # (a) fresh interpreters with different hash randomisation; each repeats every run twice
+    outs = {}
+    for hs in hashseeds:
+        outs[hs] = run_children(hs, jobs)
+        dist["process_runs"] += 1
+    for q, (seed, sources, schemas, negated) in enumerate(meta):
         dist["negated_class"] += int(negated)
-        seed = r.choice([0, 1, 42, r.randrange(1 << 32), "seed", 3.5])
-        # (a) fresh interpreters with different hash randomisation; each repeats the run twice
-        outs = {}
         for hs in hashseeds:
-            res = run_child(hs, seed, sources, repeat=2)
-            dist["process_runs"] += 1
+            res = outs[hs][q]
             if res[0] != res[1]:
                 ctx.violation("repeating the seeded sequence in the same process gives different values",
-                              {"kind": "history", "seed": repr(seed), "schemas": sources, "hashseed": hs,
+                              {"kind": "history", "seed": repr(seed), "schemas": sources, "hashseeds": [hs],
                                "observed": [res[0], res[1]]})
-            outs[hs] = res[0]
-        ref = outs[hashseeds[0]]
-        diff = [hs for hs in hashseeds if outs[hs] != ref]
+                break
+        ref = outs[hashseeds[0]][q][0]
+        diff = [hs for hs in hashseeds if outs[hs][q][0] != ref]
         if diff:
             dist["differences"] += 1
             ex = f"seed={seed!r}, schemas={sources}, PYTHONHASHSEED {hashseeds[0]} vs {diff[0]}"
             if negated and ctx.known_finding("F18", ex[:300]):
                 pass
             else:
-                idx = next(i for i in range(len(ref)) if outs[diff[0]][i] != ref[i])
+                other = outs[diff[0]][q][0]
+                idx = next(i for i in range(len(ref)) if other[i] != ref[i])
                 ctx.violation("seeded generation differs between interpreters",
                               {"kind": "history", "seed": repr(seed), "schemas": sources, "hashseeds": [hashseeds[0], diff[0]],
-                               "first_difference_at": idx, "observed": [ref[idx], outs[diff[0]][idx]],
+                               "first_difference_at": idx, "observed": [ref[idx][:300], other[idx][:300]],
                                "expected": "the same values"})
-        # (b) the same run in this process with the real RNG recorded as a tape; the model replays it
-        from d42.generation import Random
+        if len(samples) < 4 and q > 12:
+            samples.append({"seed": repr(seed), "schemas": sources, "hashseeds": hashseeds})
+    # (b) the same runs in this process with the real RNG recorded as a tape; the model replays it
+    from d42.generation import Random
+    generator = gsuite.make_generator()
+    saved = (_random.randint, _random.choice, _random.uniform)
+    for seed, sources, schemas, negated in meta[:ctx.scale(60, 600)]:
         Random().set_seed(seed)
-        generator = gsuite.make_generator()
-        saved = (_random.randint, _random.choice, _random.uniform)
         for src, s in zip(sources, schemas):
             rec = Recorder(saved)
             outcome, res = gsuite.run(s, rec, generator)
@@ -160,8 +179,6 @@ def run(ctx):
                 infos.append((src, repr(seed)))
             except absn.Unmodelled:
                 pass
-        if len(samples) < 4:
-            samples.append({"seed": repr(seed), "schemas": sources, "hashseeds": hashseeds})
     bad = common.eval_cases(ctx.workdir, "c17", terms, "gencase", "gencase_ok",
                             extra_requires="Require Import D42.PyRandom D42.RegexGen D42.Generate D42.CaseGen.")
     for i in bad[:10]:
@@ -171,10 +188,11 @@ def run(ctx):
                        "theorem_or_suite": "C17 correspondence: recorded tape (theorem gen_world_independent_partial "
                                            "is about the model's generator)"}, failing_input=False)
     ctx.coverage.update(
-        evaluations=dist["process_runs"] * 2 + len(terms),
+        evaluations=dist["process_runs"] * 2 * dist["sequences"] + len(terms),
         distinct_nontrivial=len(set(terms)),
-        rule="sequences of 1-7 environment-free schemas (no unfixed uuid4/datetime/date; nesting <= %d; every 5th "
-             "sequence gets a pattern with a negated class = the F18 stream), seeds of type int/str/float; each "
+        rule="sequences of 1-7 environment-free schemas (no unfixed uuid4/datetime/date; nesting <= %d; every 6th "
+             "sequence gets a pattern with a negated class = the F18 stream, every 4th a relaxed dict with several "
+             "drawing members), seeds of type int/float/str/bytes/bool incl. the falsy ones; each "
              "sequence is generated after Random().set_seed(k) twice in each of %d fresh interpreters with different "
              "PYTHONHASHSEED and all outputs (canonical value terms) must be identical; the same run in-process with "
              "the real RNG's outcomes recorded as a tape, replayed by the Coq model." % (depth, len(hashseeds)),
@@ -187,7 +205,6 @@ def run(ctx):
 
 def replay(data):
     sources = data.get("schemas") or [data["schema"]]
-    seed = eval(data["seed"])
     for hs in data.get("hashseeds", [0, 1]):
-        print("PYTHONHASHSEED", hs, run_child(hs, seed, sources)[0])
+        print("PYTHONHASHSEED", hs, run_children(hs, [{"seed": data["seed"], "schemas": sources, "repeat": 2}])[0])
     return 0
